@@ -102,3 +102,21 @@ Proof. intros H. apply dbinv_of_inv. exact (rreach_inv le t H). Qed.
    them are consistent, and so is every statement-prefix applied later to them *)
 Theorem rreach_kill_tables le t o sc k l n : rreach le t -> DbInv (execs (crash_at le k t o sc) (firstn n l)).
 Proof. intros H. apply crash_prefix_inv. exact (proj1 (crash_integrity le k t o sc (rreach_inv le t H))). Qed.
+
+(* ---------------------------------------------------------------------------------------------------------- *)
+(* the C07 ledger across a clean restart: available, held and hence granted = available + held + forfeited *)
+From TeosModel Require Import TowerLedger.
+
+Lemma restart_bal t v :
+  avail (restart t (db_of t)) v = avail t v /\ held_t (restart t (db_of t)) v = held_t t v /\
+  bal (restart t (db_of t)) v = bal t v /\ has_row (restart t (db_of t)) v = has_row t v.
+Proof. repeat split. Qed.
+
+Theorem ledger_across_clean_restart t l : Led t l -> Led (restart t (db_of t)) l.
+Proof.
+  intros HL v Hr. destruct (restart_bal t v) as [_ [_ [Hb Hh]]]. rewrite Hb. apply HL. rewrite <- Hh. exact Hr.
+Qed.
+
+(* ... and across a kill inside any operation the persisted balance of every user is at most what the operation
+   grants above the balance before it (CrashOpsProofs), so over a whole history a kill + restart never adds slots
+   beyond the interrupted request's grant *)
